@@ -33,6 +33,21 @@ def run(ctx):
     p6(ctx, F)
     p8(ctx, F)
     p9(ctx, F)
+    # P10 = C03.S2: the position asked about is the position searched, also for the next `go`: no search function leaves moves played
+    # on a game it does not own (an aborted search on the caller's game hands the session a position from inside the tree)
+    from . import p03
+    before, nv = len(ctx.instances), len(ctx.violations)
+    p03.s2(ctx, F)
+    for i in ctx.instances[before:]:
+        i["rule"] = "C06.P10(" + i["rule"] + ")"
+    for v in ctx.violations[nv:]:
+        v["rule"] = "C06.P10(" + v["rule"] + ")"
+        v["key"] = "C06.P10|" + v["key"]
+    # P11 = C01: the move announced comes from the checked move list - it is legal exactly as far as that list is
+    from . import p01, p17
+    before, nv = len(ctx.instances), len(ctx.violations)
+    p01.run(ctx)
+    p17.relabel(ctx, before, nv, "C06.P11")
     from . import p04
     before, nv = len(ctx.instances), len(ctx.violations)
     p04.rule_k4(ctx, F)
